@@ -75,6 +75,14 @@ fn main() -> std::io::Result<()> {
     process::exit(exit_code);
 }
 
+/// A reader that went away (closed pipe, pager quit) is not an error.
+fn ignore_broken_pipe(result: std::io::Result<()>) -> std::io::Result<()> {
+    match result {
+        Err(error) if error.kind() == ErrorKind::BrokenPipe => Ok(()),
+        other => other,
+    }
+}
+
 #[cfg(not(tarpaulin_include))]
 // An Ok result contains the desired process exit code. Note that 1 is used to
 // report that two files differ when delta is called with two positional
@@ -88,7 +96,7 @@ pub fn run_app(
     let (call, opt) = cli::Opt::from_args_and_git_config(args, &env, assets);
 
     if let Call::Version(msg) = call {
-        writeln!(std::io::stdout(), "{}", msg.trim_end())?;
+        ignore_broken_pipe(writeln!(std::io::stdout(), "{}", msg.trim_end()))?;
         return Ok(0);
     } else if let Call::Help(msg) = call {
         OutputType::oneshot_write(msg)?;
@@ -144,7 +152,7 @@ pub fn run_app(
     if _show_config {
         let stdout = io::stdout();
         let mut stdout = stdout.lock();
-        subcommands::show_config::show_config(&config, &mut stdout)?;
+        ignore_broken_pipe(subcommands::show_config::show_config(&config, &mut stdout))?;
         return Ok(0);
     }
 
